@@ -42,11 +42,22 @@ pub struct Outcome {
 }
 
 fn run_swap(h: &Hist, user: usize, sp: &SwapParams, arrays: [Pubkey; 3], supplemental: &[Pubkey], v2: bool) -> Outcome {
+    run_swap_flags(h, user, sp, arrays, supplemental, v2, false)
+}
+
+/// `readonly_supplemental`: the supplemental tick arrays are passed as read-only accounts (the instruction cannot write them)
+fn run_swap_flags(h: &Hist, user: usize, sp: &SwapParams, arrays: [Pubkey; 3], supplemental: &[Pubkey], v2: bool, readonly_supplemental: bool) -> Outcome {
     let mut hh = Hist { w: h.w.clone(), spec: h.spec.clone(), pool: h.pool, lps: h.lps.clone(), traders: h.traders.clone(), treasury: h.treasury, array_starts: h.array_starts.clone(), base_unit: h.base_unit, last_swap: None };
     let pl = hh.w.pools[hh.pool].clone();
     let (ta, tb) = (hh.w.user_token_existing(user, &pl.mint_a.key), hh.w.user_token_existing(user, &pl.mint_b.key));
     let (a0, b0) = (hh.w.balance(&ta), hh.w.balance(&tb));
-    let ix = if v2 || !supplemental.is_empty() { hh.w.ix_swap_v2_with_arrays(hh.pool, user, sp, arrays, supplemental) } else { hh.w.ix_swap_with_arrays(hh.pool, user, sp, arrays) };
+    let mut ix = if v2 || !supplemental.is_empty() { hh.w.ix_swap_v2_with_arrays(hh.pool, user, sp, arrays, supplemental) } else { hh.w.ix_swap_with_arrays(hh.pool, user, sp, arrays) };
+    if readonly_supplemental {
+        let n = ix.accounts.len();
+        for m in ix.accounts[n - supplemental.len()..].iter_mut() {
+            m.is_writable = false;
+        }
+    }
     let o = hh.w.exec(&ix);
     if !o.ok() {
         return Outcome { ok: false, code: o.code().unwrap(), paid: 0, received: 0, pool: None, ticks: BTreeMap::new(), crossed: vec![] };
@@ -370,6 +381,17 @@ pub fn check_case(c: &PackCase, l: &mut Local) -> Result<(), String> {
         let far = tick_array_pda(&pk, array_start(MAX_TICK, h.spec.tick_spacing));
         let fixed_slots = if arr.contains(&far) { [arr[0], arr[0], arr[0]] } else { [far, far, far] };
         cmp(&format!("{name}, arrays passed as supplemental accounts"), &run_swap(h, h.traders[0], &sp, fixed_slots, &permute(arr, c.order_seed.wrapping_add(1)), true))?;
+        // the same with the supplemental accounts passed READ-ONLY: the instruction cannot record crossings in them, so it must be refused
+        // unless the swap never needs to write them; a success must still be the full outcome (no initialized tick skipped)
+        {
+            let o = run_swap_flags(h, h.traders[0], &sp, fixed_slots, &permute(arr, c.order_seed.wrapping_add(1)), true, true);
+            if o.ok {
+                cmp(&format!("{name}, arrays passed as read-only supplemental accounts"), &o)?;
+                l.count("readonly_supplemental_accepted_with_the_full_outcome");
+            } else {
+                l.count("readonly_supplemental_refused");
+            }
+        }
         // extra supplemental arrays beyond the window (the array behind the start and the fourth array ahead) change nothing
         let starts = h.w.swap_array_starts(h.pool, c.a_to_b);
         if let (Some(first), Some(last)) = (starts.first(), starts.last()) {
